@@ -13,6 +13,7 @@ one of the two classes found on the unchanged tree (modified() / copy's backup i
 import copy
 
 from vf.ob import Symx
+from vf.refs import flowio as F
 
 LEVEL = "model_checking"
 ASSUMPTIONS = [
@@ -125,7 +126,12 @@ def _make(kind):
     if kind == "http":
         return tflow.tflow(resp=True)
     if kind == "ws":
-        return tflow.tflow(resp=True, ws=True)
+        f = tflow.tflow(resp=True, ws=True)
+        # closed by the server, without a reason: optional fields holding False / "" (not None)
+        f.websocket.closed_by_client = False
+        f.websocket.close_reason = ""
+        f.websocket.close_code = 1000
+        return f
     if kind == "tcp":
         return tflow.ttcpflow()
     if kind == "udp":
@@ -137,6 +143,11 @@ def _content(f):
     """the flow's complete serialisable state without the backup slot (what 'restores exactly' is judged on)"""
     s = f.get_state()
     s.pop("backup", None)
+    # ... and the objects' attributes as an addon reads them, taken without get_state(): a value that get_state()/set_state()
+    # normalise away on both sides (e.g. a falsy optional field) is invisible in the state dicts alone
+    av = F.attr_view(f)
+    av[2].pop("id", None)
+    s["__attributes__"] = av
     return s
 
 
